@@ -268,8 +268,23 @@ def instrument_text(text, fname):
             b = skip_ws(body, q + 1)
             tag = "%s_%d" % (name, nloop)
             if b >= len(body) or body[b] != "{":
-                # unbraced loop body (not the repository's style, but a change may introduce one):
-                # only the loop-contract point can be offered; no ghost statement points
+                # unbraced loop body (not the repository's style, but a change may introduce one).  If the body is a plain
+                # expression statement it is wrapped in braces (semantically neutral) so that all four points exist;
+                # otherwise only the loop-contract point can be offered.
+                d0 = pd[q] - 1
+                simple = b < len(body) and not re.match(r"(if|for|while|do|switch|else|return|goto|break|continue)\b", body[b:]) and body[b] != ";"
+                k = b
+                while simple and k < len(body) and not (body[k] == ";" and pd[k] == d0):
+                    if body[k] in "{}":
+                        simple = False
+                    k += 1
+                if simple and k < len(body):
+                    inserts.append((lb + kw, 1, "VP_%s " % tag))
+                    inserts.append((lb + q + 1, 0, " VL_%s " % tag))
+                    inserts.append((lb + b, 0, "{ VT_%s " % tag))
+                    inserts.append((lb + k + 1, 0, " } VX_%s " % tag))
+                    points += ["VP_" + tag, "VL_" + tag, "VT_" + tag, "VX_" + tag]
+                    continue
                 inserts.append((lb + q + 1, 0, " VL_%s " % tag))
                 points += ["VL_" + tag]
                 continue
